@@ -313,7 +313,7 @@ Definition wire_step (w : wire) (e : wev) : wire :=
     Per connection: the readiness bits that are both signalled and of interest
     (READABLE, WRITABLE, HUP/ERROR), and whether it is a backend that hung up
     but is kept because its stream buffers still hold undelivered bytes.
-    [skip_dead_hup] = the test since fix d86ed70 ([true]): HUP/ERROR of such a
+    [skip_dead_hup] = the test since fix 50dae8f ([true]): HUP/ERROR of such a
     kept backend is not work. *)
 Record cready := mkcr { cr_r : bool; cr_w : bool; cr_hup : bool; cr_dead_kept : bool }.
 
